@@ -122,10 +122,24 @@ fn cls(b: Option<i64>) -> &'static str {
     }
 }
 
-fn bval(b: Option<i64>) -> Value {
+/// How a bound or key reaches the engine: 0 = written in the source, 1.. = a variable holding the integer
+/// in one of the value model's integer storage widths.
+const FORMS: &[&str] = &["literal", "var_i64", "var_i128", "var_u64_or_i128", "var_u128_or_i128"];
+
+fn ival(v: i64, form: u8) -> Value {
+    match form {
+        2 => Value::from(v as i128),
+        3 if v >= 0 => Value::from(v as u64),
+        4 if v >= 0 => Value::from(v as u128),
+        3 | 4 => Value::from(v as i128),
+        _ => Value::from(v),
+    }
+}
+
+fn bval(b: Option<i64>, form: u8) -> Value {
     match b {
         None => Value::from(()),
-        Some(v) => Value::from(v),
+        Some(v) => ival(v, form),
     }
 }
 
@@ -136,7 +150,7 @@ struct Case {
     start: Option<i64>,
     stop: Option<i64>,
     step: Option<i64>,
-    variable_form: bool,
+    form: u8,
 }
 
 impl Case {
@@ -148,12 +162,12 @@ impl Case {
             lit(self.start),
             lit(self.stop),
             lit(self.step),
-            if self.variable_form { " var" } else { "" }
+            if self.form > 0 { format!(" {}", FORMS[self.form as usize]) } else { String::new() }
         )
     }
     fn to_json(&self) -> J {
         json!({"op": "slice", "kind": KINDS[self.kind], "len": self.len, "start": self.start, "stop": self.stop,
-               "step": self.step, "variable_form": self.variable_form})
+               "step": self.step, "form": self.form})
     }
 }
 
@@ -224,9 +238,9 @@ fn run_slice(env: &Environment, c: &Case) -> Result<(), Failure> {
     let kind = KINDS[c.kind];
     let v = make_value(kind, c.len);
     let res = catch(|| {
-        if c.variable_form {
+        if c.form > 0 {
             let expr = env.compile_expression("v[a:b:c]").unwrap();
-            expr.eval(context! { v => v, a => bval(c.start), b => bval(c.stop), c => bval(c.step) })
+            expr.eval(context! { v => v, a => bval(c.start, c.form), b => bval(c.stop, c.form), c => bval(c.step, c.form) })
         } else {
             let src = format!("v[{}:{}:{}]", lit(c.start), lit(c.stop), lit(c.step));
             let expr = match env.compile_expression(&src) {
@@ -324,10 +338,10 @@ fn sub_indices() -> Vec<i64> {
     v
 }
 
-fn run_subscript(env: &Environment, kind_i: usize, len: usize, i: i64, variable_form: bool) -> Result<(), Failure> {
+fn run_subscript(env: &Environment, kind_i: usize, len: usize, i: i64, form: u8) -> Result<(), Failure> {
     let kind = KINDS[kind_i];
     let v = make_value(kind, len);
-    let case = format!("{} len={} [{}]{}", kind, len, i, if variable_form { " var" } else { "" });
+    let case = format!("{} len={} [{}] {}", kind, len, i, FORMS[form as usize]);
     let mk = |class: &str, detail: String| Failure {
         key: format!(
             "subscript {} kind={} index={}",
@@ -337,11 +351,11 @@ fn run_subscript(env: &Environment, kind_i: usize, len: usize, i: i64, variable_
         ),
         case: case.clone(),
         detail,
-        replay: json!({"op": "subscript", "kind": kind, "len": len, "index": i, "variable_form": variable_form}),
+        replay: json!({"op": "subscript", "kind": kind, "len": len, "index": i, "form": form}),
     };
     let res = catch(|| {
-        if variable_form {
-            env.compile_expression("v[i]").unwrap().eval(context! { v => v, i => i })
+        if form > 0 {
+            env.compile_expression("v[i]").unwrap().eval(context! { v => v, i => ival(i, form) })
         } else {
             let src = format!("v[{}]", i);
             env.compile_expression(&src)?.eval(context! { v => v })
@@ -384,7 +398,7 @@ pub fn replay_case(j: &J) -> Result<(), Failure> {
         .position(|k| Some(*k) == j["kind"].as_str())
         .expect("kind");
     let len = j["len"].as_u64().unwrap() as usize;
-    let vf = j["variable_form"].as_bool().unwrap_or(false);
+    let vf = j["form"].as_u64().map(|f| f as u8).unwrap_or(if j["variable_form"].as_bool().unwrap_or(false) { 1 } else { 0 });
     if j["op"] == "subscript" {
         run_subscript(&env, kind, len, j["index"].as_i64().unwrap(), vf)
     } else {
@@ -396,7 +410,7 @@ pub fn replay_case(j: &J) -> Result<(), Failure> {
                 start: j["start"].as_i64(),
                 stop: j["stop"].as_i64(),
                 step: j["step"].as_i64(),
-                variable_form: vf,
+                form: vf,
             },
         )
     }
@@ -432,15 +446,15 @@ pub fn main(args: Args) -> i32 {
             let step = ss[(n % ns) as usize];
             for kind in 0..KINDS.len() {
                 for len in 0..=6usize {
-                    for vf in [false, true] {
-                        let c = Case { kind, len, start, stop, step, variable_form: vf };
+                    for vf in 0..FORMS.len() as u8 {
+                        let c = Case { kind, len, start, stop, step, form: vf };
                         l.evals += 1;
                         match run_slice(&env, &c) {
                             Ok(()) => {
                                 if step != Some(0) {
                                     let idx = py_slice_indices(len, start, stop, step);
                                     l.outcome(&format!("ok selected={}", idx.len()));
-                                    if !idx.is_empty() && !vf {
+                                    if !idx.is_empty() && vf == 0 {
                                         // distinct non-trivial: a non-empty selection, keyed by (kind,len,indices)
                                         l.nontrivial.insert(fnv(format!("{}|{}|{:?}", kind, len, idx).as_bytes()));
                                     }
@@ -466,7 +480,7 @@ pub fn main(args: Args) -> i32 {
             let i = subs[n as usize];
             for kind in 0..KINDS.len() {
                 for len in 0..=6usize {
-                    for vf in [false, true] {
+                    for vf in 0..FORMS.len() as u8 {
                         l.evals += 1;
                         match run_subscript(&env, kind, len, i, vf) {
                             Ok(()) => {
@@ -492,7 +506,7 @@ pub fn main(args: Args) -> i32 {
             level: "exploration",
             tier: args.tier,
             seed: args.seed,
-            rule: "complete box: 13 kinds (ASCII and multi-byte strings in inline, shared-heap and safe-string storage, list, tuple, sized and unsized lazy iterables, bytes, lazily concatenated / repeated / reversed lists); every slice result is also used as an operand (its |length, [-1], [-2:], [::-1] must agree with the elements it produced) x len 0..=6 x start,stop in {omitted}U[-9,9]U{i64::MIN,i64::MAX} x step in {omitted}U[-4,4]U{i64::MIN,i64::MAX} x {literal, variable} operand form, plus subscripts v[i] for i in [-9,9]U{i64::MIN,i64::MAX}; oracle = CPython PySlice_AdjustIndices transcribed on i128 + result-kind rule; a case is distinct non-trivial when it selects a non-empty index list, keyed by (kind,len,selected indices)".into(),
+            rule: "complete box: 13 kinds (ASCII and multi-byte strings in inline, shared-heap and safe-string storage, list, tuple, sized and unsized lazy iterables, bytes, lazily concatenated / repeated / reversed lists); every slice result is also used as an operand (its |length, [-1], [-2:], [::-1] must agree with the elements it produced) x len 0..=6 x start,stop in {omitted}U[-9,9]U{i64::MIN,i64::MAX} x step in {omitted}U[-4,4]U{i64::MIN,i64::MAX} x 5 forms of every bound and key (written in the source, or a variable holding the integer as i64, i128, u64 or u128 - what |int, serde and the embedding program produce), plus subscripts v[i] for i in [-9,9]U{i64::MIN,i64::MAX}; oracle = CPython PySlice_AdjustIndices transcribed on i128 + result-kind rule; a case is distinct non-trivial when it selects a non-empty index list, keyed by (kind,len,selected indices)".into(),
             exhaustive: true,
             bound: json!({"kinds": KINDS, "len": "0..=6", "start_stop": "omitted, -9..=9, i64::MIN, i64::MAX", "step": "omitted, -4..=4, i64::MIN, i64::MAX"}),
             assumptions: vec![
